@@ -14,7 +14,7 @@ use yash_env::builtin::{Builtin, Result as BResult, Type};
 use yash_env::io::Fd;
 use yash_env::semantics::{ExitStatus, Field};
 use yash_env::system::concurrency::{Sleep, WriteAll};
-use yash_env::system::{Close, Errno, GetPid, Mode, OfdAccess, Open, Read};
+use yash_env::system::{Close, Errno, GetPid, Mode, OfdAccess, Open, Read, SendSignal, Signals};
 
 type BFut<'a> = Pin<Box<dyn Future<Output = BResult> + 'a>>;
 
@@ -300,12 +300,32 @@ fn cat_impl<S: WriteAll + Read + Open + Close>(
     })
 }
 
+/// `selfkill NAME` - the calling process sends itself the named signal
+/// (TERM, KILL, INT, HUP, USR1, ...).
+fn selfkill_main<S: SendSignal + Signals>(env: &mut Env<S>, args: Vec<Field>) -> BFut<'_> {
+    Box::pin(async move {
+        let name = args.first().map(|f| f.value.clone()).unwrap_or_default();
+        let sig = match name.as_str() {
+            "KILL" => S::SIGKILL,
+            "INT" => S::SIGINT,
+            "HUP" => S::SIGHUP,
+            "QUIT" => S::SIGQUIT,
+            "USR1" => S::SIGUSR1,
+            "USR2" => S::SIGUSR2,
+            _ => S::SIGTERM,
+        };
+        env.system.raise(sig).await.ok();
+        BResult::new(ExitStatus::SUCCESS)
+    })
+}
+
 /// Probes that work on any system (also used on the real kernel).
 pub fn generic_probes<S>() -> Vec<(&'static str, Builtin<S>)>
 where
-    S: WriteAll + Read + GetPid + Sleep + Open + Close + 'static,
+    S: WriteAll + Read + GetPid + Sleep + Open + Close + SendSignal + Signals + 'static,
 {
     vec![
+        ("selfkill", Builtin::new(Type::Mandatory, selfkill_main)),
         ("cat", Builtin::new(Type::Mandatory, cat_main)),
         ("catfd", Builtin::new(Type::Mandatory, catfd_main)),
         ("echo", Builtin::new(Type::Mandatory, echo_main)),
